@@ -153,6 +153,12 @@ class ExecPlaces(Exec):
             return self.list_method(recv, name, args, node, fr)
         if isinstance(recv, PyDict) or (isinstance(recv, BoundMethod)):
             raise OutOfSubset("method on dict")
+        if isinstance(recv, str) and name == "format" and recv.count("{}") == len(args) and "{" not in recv.replace("{}", ""):
+            pieces = recv.split("{}")
+            out = pieces[0]
+            for a, p in zip(args, pieces[1:]):
+                out = self.binop(ast.Add(), self.binop(ast.Add(), out, self.call_builtin("str", [a], {}, node, fr), node), p, node)
+            return out
         conc = not isinstance(recv, SV) and all(not isinstance(a, (SV, Ref)) for a in args)
         if conc and isinstance(recv, (str, tuple)):
             r = getattr(recv, name)(*args, **kwargs)
